@@ -188,12 +188,22 @@ fn make_seqs(p: Pattern, st: &GenState) -> Option<Vec<Seq>> {
         Pattern::One => vec![s(2, 3, 3 + 1)],
         Pattern::SameCodes => vec![s(4, 4, 4), s(4, 4, 5), s(4, 4, 7)],
         Pattern::Repeats => {
-            if hist < 8 {
-                // make the history long enough for the initial repeat offsets (1, 4, 8) first
-                vec![s(9, 3, 3 + 5), s(0, 4, 3), s(1, 3, 1), s(0, 3, 1), s(2, 3, 2), s(2, 3, 3), s(0, 3, 2), s(1, 3, 3 + 7)]
-            } else {
-                vec![s(1, 3, 1), s(0, 3, 1), s(2, 5, 2), s(3, 3, 3), s(0, 3, 2), s(0, 4, 3), s(1, 3, 3 + 5), s(0, 3, 3)]
+            // for each of the six repeat-code cases: seed the history with three distinct new offsets, apply the
+            // case, then read the history out with three "offset code 3, ll > 0" sequences (each takes the third
+            // entry and rotates it to the front), so that every slot of the updated history reaches the output
+            let mut v = vec![];
+            let mut first = true;
+            for (ll, of) in [(1u32, 1u32), (1, 2), (1, 3), (0, 1), (0, 2), (0, 3)] {
+                v.push(s(if first { 9 } else { 1 }, 3, 3 + 7));
+                v.push(s(1, 4, 3 + 3));
+                v.push(s(2, 3, 3 + 5));
+                first = false;
+                v.push(s(ll, 3, of));
+                for _ in 0..3 {
+                    v.push(s(1, 3, 3));
+                }
             }
+            v
         }
         Pattern::Overlap => vec![s(1, 40, 3 + 1), s(2, 19, 3 + 2), s(3, 7, 3 + 3)],
         Pattern::ReachStart => {
